@@ -645,3 +645,19 @@ Example C06_nonvacuous_registration :
   /\ store_list Registration.S_web true [ru_loq] = Err (Refused 3)
   /\ store_list Registration.S_web false [ru_loq; ru_app] = Err (Refused 4).
 Proof. repeat split; vm_compute; reflexivity. Qed.
+
+(* --- round 12: the loopback list and the default encoding of the response are the source's --- *)
+From Verif Require Gen.Src_authz Proofs.Src_refine_authz.
+Theorem C06_is_localhost_is_source : forall p clock,
+  Src_authz.is_localhost_uri_src (Src_refine_authz.inject_host p) clock = Ok (VBool (Uri.is_localhost p)).
+Proof. exact Src_refine_authz.is_localhost_uri_refines. Qed.
+Print Assumptions C06_is_localhost_is_source.
+Theorem C06_fragment_encoding_is_source : forall rt clock,
+  Src_authz.fragment_encoding_src (VList (List.map VStr rt)) clock = Ok (VBool (Src_refine_authz.fragment_encoding rt)).
+Proof. exact Src_refine_authz.fragment_encoding_refines. Qed.
+Print Assumptions C06_fragment_encoding_is_source.
+Theorem C06_query_delivery_only_for_code : forall rt,
+  Src_refine_authz.fragment_encoding rt = false <-> rt = [PS "code"%string].
+Proof. exact Src_refine_authz.fragment_encoding_false_iff. Qed.
+Print Assumptions C06_query_delivery_only_for_code.
+(* --- end round 12 --- *)
